@@ -129,6 +129,10 @@ fn read_entry(
     all_offsets.extend(header_data.secondary_name_offset.map(NonZeroU64::get));
     all_offsets.extend(sprite_offsets.iter().map(|&offset| offset as u64));
     all_offsets.extend(script_ids_and_offsets.iter().map(|&(_, offset)| offset as u64));
+    // (the last script of an entry without a texture ends where the next entry begins)
+    if header_data.next_offset != 0 {
+        all_offsets.push(header_data.next_offset);
+    }
 
     let scripts = script_ids_and_offsets.iter().map(|&(id, offset)| {
         let script_index = *next_script_index;
